@@ -2,6 +2,8 @@
 import vlib
 from pipes_common import PipeSpec
 
+SPECS = {"stream-faults": (PipeSpec("stream", True), "harness", "runner")}
+
 PROP_FILES = ["C08"]
 
 
